@@ -25,7 +25,6 @@ hands it the classes built by the dereplication).`,
 }
 
 var e0Exempt = map[string]string{
-	"pkg/obiseq.(BioSequenceSlice).Merge": "merges a class of identical records: the classes of the dereplication hold at least one record (documented precondition of the only caller, IMergeSequenceBatch)",
 }
 
 func runE0(c *Ctx, s *Sink) {
